@@ -261,10 +261,12 @@ def pump (phase : Nat) (st : St) (e : EvLoop) : List Ev → St
       pump phase { st with up := true, log := st.log ++ [Obs.enter e.conn] } { e with connCount := e.connCount + 1 } rest
     | .other => pump phase { st with log := st.log ++ [Obs.enter e.conn] } e rest
     | _ =>
-      -- `connection_error`, then `reconnecting` if it had been connected before
+      -- `connection_error`, then `reconnecting` if it had been connected before; `reconnecting` counts a lost
+      -- connection only if the established flag was still set (`swap(false)`, /repo 5c958b4: a failed attempt to
+      -- re-connect during an outage is not another loss; before that commit every such error counted)
       { st with ceCnt := st.ceCnt + 1,
                 up := if e.connCount > 0 then false else st.up,
-                clCnt := if e.connCount > 0 then st.clCnt + 1 else st.clCnt,
+                clCnt := if e.connCount > 0 && st.up then st.clCnt + 1 else st.clCnt,
                 ev := some { e with backoff := some (st.clock + st.retry, phase), evq := rest } }
 
 def brokerEvent (st : St) (x : Ev) : St :=
